@@ -41,7 +41,7 @@ var orgNoteTextSubjectMap = map[cbc.Key]cbc.Code{
 }
 
 var (
-	orgInboxRegexpSchemeCode = regexp.MustCompile(`(\d{4}):.*`)
+	orgInboxRegexpSchemeCode = regexp.MustCompile(`^\d{4}:.+`)
 )
 
 func normalizeOrgNote(n *org.Note) {
@@ -71,7 +71,9 @@ func normalizeOrgInbox(i *org.Inbox) {
 	if i == nil || i.Code == cbc.CodeEmpty {
 		return
 	}
-	if orgInboxRegexpSchemeCode.MatchString(i.Code.String()) {
+	// only split a "scheme:code" pair once: a code that itself contains a
+	// colon must not lose another prefix every time the inbox is normalised
+	if i.Scheme == cbc.CodeEmpty && orgInboxRegexpSchemeCode.MatchString(i.Code.String()) {
 		i.Scheme = cbc.Code(i.Code.String()[0:4])
 		i.Code = cbc.Code(i.Code.String()[5:])
 	}
